@@ -1,13 +1,121 @@
 """C01 — reduce() never changes the denoted map."""
 from __future__ import annotations
 
+import z3
+
 from props import driver
+from pyvc import builtins_model as B
+from pyvc.values import Obj, SSeq, fresh_int, to_z3, z_and, z_eq, z_not
 from theories import alg as A
+
+CORE = 'furax._base.core'
+RULES = 'furax._base.rules'
+ORACLE = {'name': 'reduce_family'}
+
+
+def scan_contract(interp, fi, args, kwargs):
+    """AlgebraicReductionRule.apply — proved by driver.scan (C01 part) for chains of length >= 1"""
+    ops = B.as_seq(interp, args[-1])
+    run = interp.run
+    a0 = A.arr_of(run, ops)
+    n0 = to_z3(ops.length)
+    run.oblige(f'{interp.cur_name()}/pre:scan', z3.And(n0 >= 1, A.chain_ok(a0, n0)), kind='pre',
+               meta=A.AlgTheory._meta(interp))
+    r = A.op_seq('scanned')
+    n = to_z3(r.length)
+    run.assume(z3.And(n >= 0, A.Ww(r.arr, 0, n) == A.Ww(a0, 0, n0), A.Wc(r.arr, 0, n) == A.Wc(a0, 0, n0),
+                      A.chain_ok(r.arr, n),
+                      z3.Implies(n >= 1, z3.And(A.outs(r.arr[0]) == A.outs(a0[0]), A.ins(r.arr[n - 1]) == A.ins(a0[n0 - 1]))),
+                      z3.Implies(n == 0, A.outs(a0[0]) == A.ins(a0[n0 - 1])),
+                      A.lem_empty(r.arr, 0), A.lem_single(r.arr, 0)))
+    return B.PyList(None, seq=r)
 
 
 def build(ck):
     T = A.AlgTheory(ck.P)
+    P = ck.P
     ck.trust('lemma:LA1 scalars are central (coefficient factored out of the word)',
-             'lemma:W-fold (split/single/pair/empty/congruence of the product of a slice; induction)')
+             'lemma:W-fold (split/single/pair/empty/congruence of the product of a slice; induction)',
+             'lemma:filter-preserves-product (dropping neutral square factors from a chain; induction)',
+             'lemma:container-congruence (sum / block row / diagonal / column are functions of their blocks)')
+    ck.assume_note('C01: operator containers (sum terms, blocks) are modelled as flat leaf sequences with an opaque '
+                   'treedef; nested containers are not distinguished from flat ones')
+    ck.assume_note('C01: termination of the rule scan is not proved (no variant); only partial correctness')
     driver.scan(ck, T, 'C01')
     driver.rules_scenarios(ck, T, 'C01')
+    axioms = driver.size_axioms() + A.reduce_axioms()
+
+    # ------------------------------------------------------------------ CompositionOperator.reduce
+    def composition_reduce(S):
+        S.oracle = ORACLE
+        ops = S.seq('operands', kind='list', sort=A.Op)
+        n0 = to_z3(ops.length)
+        a0 = ops.arr
+        S.assume(z3.And(n0 >= 1, A.chain_ok(a0, n0)))       # class invariant of a composition (C02 establishes it)
+        o = S.new('CompositionOperator', operands=B.PyList(None, seq=ops))
+        out = S.call(S.I.getattr(o, 'reduce'), [])
+        if not out.normal:
+            S.oblige('exc', False, tag=f'no-exception-{out.value.name}', note=str(out.where))
+            return
+        # the comprehension [operand.reduce() for operand in self.operands] has the words of the operands
+        k = fresh_int('k')
+        c, w, i_, o_ = A.den_of(S.I, out.value)
+        S.oblige('post', z3.And(w == A.Ww(a0, 0, n0), c == A.Wc(a0, 0, n0)), tag='same-map', exact=False)
+        S.oblige('post', z3.And(i_ == A.ins(a0[n0 - 1]), o_ == A.outs(a0[0])), tag='same-structures', exact=False)
+    contracts = {f'{RULES}.AlgebraicReductionRule.apply': scan_contract}
+    ck.explore(f'{CORE}.CompositionOperator.reduce', composition_reduce, T, contracts=contracts, axioms=axioms)
+
+    # ------------------------------------------------------------------ AdditionOperator.reduce
+    def addition_reduce(S):
+        S.oracle = ORACLE
+        ops = S.seq('operands', kind='list', sort=A.Op)
+        n0 = to_z3(ops.length)
+        a0 = ops.arr
+        k = fresh_int('k')
+        # class invariant of a sum: non-empty, all terms share the structures of the first
+        S.assume(z3.And(n0 >= 1, z3.ForAll([k], z3.Implies(z3.And(k >= 0, k < n0), z3.And(
+            A.ins(a0[k]) == A.ins(a0[0]), A.outs(a0[k]) == A.outs(a0[0]))))))
+        S.assume(z3.Implies(n0 == 1, z3.And(A.Sw(a0, 1) == A.denw(a0[0]), A.Sc(a0, 1) == A.denc(a0[0]))))  # sum of one term
+        o = S.new('AdditionOperator', operands=B.PyList(None, seq=ops))
+        out = S.call(S.I.getattr(o, 'reduce'), [])
+        if not out.normal:
+            S.oblige('exc', False, tag=f'no-exception-{out.value.name}', note=str(out.where))
+            return
+        c, w, i_, o_ = A.den_of(S.I, out.value)
+        S.oblige('post', z3.And(w == A.Sw(a0, n0), c == A.Sc(a0, n0)), tag='same-map', exact=False)
+        S.oblige('post', z3.And(i_ == A.ins(a0[0]), o_ == A.outs(a0[0])), tag='same-structures', exact=False)
+    ck.explore(f'{CORE}.AdditionOperator.reduce', addition_reduce, T, axioms=axioms)
+
+    # ------------------------------------------------------------------ block operators' reduce
+    BL = 'furax._base.blocks'
+    for cname, kind in (('BlockRowOperator', 'Row'), ('BlockDiagonalOperator', 'Diag'), ('BlockColumnOperator', 'Col')):
+        def block_reduce(S, cname=cname, kind=kind):
+            S.oracle = ORACLE
+            ops = S.seq('blocks', kind='list', sort=A.Op)
+            n0 = to_z3(ops.length)
+            a0 = ops.arr
+            k = fresh_int('k')
+            S.assume(n0 >= 1)
+            # class invariant established by the constructor (C10): shared structures agree
+            if kind == 'Row':
+                S.assume(z3.ForAll([k], z3.Implies(z3.And(k >= 0, k < n0), A.outs(a0[k]) == A.outs(a0[0]))))
+            if kind == 'Col':
+                S.assume(z3.ForAll([k], z3.Implies(z3.And(k >= 0, k < n0), A.ins(a0[k]) == A.ins(a0[0]))))
+            # LA4: a block diagonal of identities is the identity on the container structure
+            S.assume(z3.Implies(z3.ForAll([k], z3.Implies(z3.And(k >= 0, k < n0), z3.And(A.denw(a0[k]) == A.EMPTY,
+                                                                                      A.denc(a0[k]) == 1))),
+                                A.BLKW['Diag'](a0, n0) == A.EMPTY))
+            # the container's input and output structure trees coincide when every block is square (same leaves)
+            S.assume(z3.Implies(z3.ForAll([k], z3.Implies(z3.And(k >= 0, k < n0), A.ins(a0[k]) == A.outs(a0[k]))),
+                                A.BLKS['Diagin'](a0, n0) == A.BLKS['Diagout'](a0, n0)))
+            o = S.new(cname, blocks=B.PyList(None, seq=ops))
+            out = S.call(S.I.getattr(o, 'reduce'), [])
+            if not out.normal:
+                S.oblige('exc', False, tag=f'no-exception-{out.value.name}', note=str(out.where))
+                return
+            c, w, i_, o_ = A.den_of(S.I, out.value)
+            S.oblige('post', z3.And(w == A.BLKW[kind](a0, n0), c == 1), tag='same-map', exact=False)
+            S.oblige('post', z3.And(i_ == A.BLKS[kind + 'in'](a0, n0), o_ == A.BLKS[kind + 'out'](a0, n0)),
+                     tag='same-structures', exact=False)
+        ck.explore(f'{BL}.{cname}.reduce', block_reduce, T, axioms=axioms + A.block_struct_axioms(),
+                   contracts=A.block_structure_contracts())
